@@ -9,6 +9,7 @@ import (
 	"os"
 	"regexp"
 	"strings"
+	"time"
 
 	"golang.org/x/tools/go/ssa"
 )
@@ -317,6 +318,10 @@ func (e *Exec) branchAssume(c *BoolV) bool {
 
 func (e *Exec) assertion(c *BoolV, msg string) {
 	frontier := e.pos >= len(e.script)
+	if frontier && !e.cfg.Deadline.IsZero() && time.Now().After(e.cfg.Deadline) {
+		// a long run of undecided assertions on one path must not outlive the job's budget
+		panic(pathEnd{"deadline", "time budget exhausted"})
+	}
 	if c.C != nil {
 		if *c.C {
 			if frontier {
